@@ -11,27 +11,46 @@
 //
 // it = the deployed item the instance descends from (0 or 1), c = position of the commit in the case's commit
 // list.  The driver judges the log of every item with the oracle extracted from coq/theories/Plan/RunLifecycle.v.
-// No hook of /repo is used: the plan Run executes is never looked at, only what the items experience.
+// The plan Run executes is never looked at, only what the items experience.
+//
+// Every option of Pipeline.Initialize that the planner / interpreter reads varies: the hibernation distance,
+// Pipeline.DumpPlan and Pipeline.PrintActions (opts bit 0 / bit 1; their output goes through the package sink of
+// internal/core, which the verif hook verifapi/c14.SetPlanPrinter swaps for a no-op: nothing reaches stderr or the
+// trace - the only hook used), the commit timestamps (tmode, planlib.TimesFor).  Kinds wide / octowide: forks of more
+// than eight branches and octopus merges of more than eight parents.  Kinds scale-*: histories with 10^3 .. 10^5
+// branches (planlib.ScaleGraph); their call log is read as a plan over instance ids by the driver and judged by the
+// fast lifecycle validator.
 package main
 
 import (
 	"fmt"
 	"io"
 	"log"
+	"math/rand"
 	"os"
 	"time"
 
 	git "gopkg.in/src-d/go-git.v4"
 	"gopkg.in/src-d/go-git.v4/plumbing/object"
 	hercules "gopkg.in/src-d/hercules.v10"
+	c14 "gopkg.in/src-d/hercules.v10/verifapi/c14"
 
 	. "verifharness/lib"
+	pl "verifharness/planlib"
 	"verifharness/synth"
 )
 
 // the facts key read by Pipeline.Initialize (core.ConfigPipelineHibernationDistance; not re-exported by the
 // root package); what Initialize made of it is read back from the public field Pipeline.HibernationDistance
 const configHibernationDistance = "Pipeline.HibernationDistance"
+
+// --dump-plan / --print-actions (core.ConfigPipelineDumpPlan, ConfigPipelinePrintActions)
+const (
+	configDumpPlan     = "Pipeline.DumpPlan"
+	configPrintActions = "Pipeline.PrintActions"
+	optDumpPlan        = 1
+	optPrintActions    = 2
+)
 
 type recorder struct {
 	events   []Sx
@@ -125,13 +144,24 @@ type caseIn struct {
 	Kind    string
 	Dist    int
 	NItems  int
+	Opts    int // optDumpPlan | optPrintActions
+	TMode   int // 0: timestamps grow with the position; else planlib.TimesFor(TMode) seeded by the number of commits
 	Commits []commitSpec
+	// large cases: Commits is generated from these, the log is judged as a plan over instance ids
+	Scale       string
+	Size, HMode int
+	GSeed       int64
 }
 
 const baseTime = 1500000000
 
 func runCase(in caseIn) (obs []Sx, nt bool, fatal error) {
 	specs := make([]synth.CommitSpec, len(in.Commits))
+	when := func(i int) int64 { return baseTime + int64(i)*100 }
+	if in.TMode > 0 {
+		ts := pl.TimesFor(in.TMode, len(in.Commits), rand.New(rand.NewSource(int64(len(in.Commits))*131+int64(in.Dist))))
+		when = func(i int) int64 { return pl.TimeBase + int64(ts[i]) }
+	}
 	index := map[int]int{}
 	for i, c := range in.Commits {
 		index[c.ID] = i
@@ -146,7 +176,7 @@ func runCase(in caseIn) (obs []Sx, nt bool, fatal error) {
 			}
 		}
 		specs[i] = synth.CommitSpec{Parents: ps, AuthorName: "u", AuthorEmail: "u@x",
-			AuthorWhen: time.Unix(baseTime+int64(i)*100, 0), Message: fmt.Sprintf("commit %d", c.ID),
+			AuthorWhen: time.Unix(when(i), 0), Message: fmt.Sprintf("commit %d", c.ID),
 			Files: []synth.FileSpec{{Path: "f", Data: []byte(fmt.Sprintf("%d\n", c.ID))}}}
 	}
 	repo, commits := synth.BuildRepo(specs)
@@ -167,11 +197,18 @@ func runCase(in caseIn) (obs []Sx, nt bool, fatal error) {
 		configHibernationDistance:      in.Dist,
 		hercules.ConfigLogger:          quietLogger{},
 	}
+	if in.Opts&optDumpPlan != 0 {
+		facts[configDumpPlan] = true
+	}
+	if in.Opts&optPrintActions != 0 {
+		facts[configPrintActions] = true
+	}
 	if err := pipeline.Initialize(facts); err != nil {
 		return nil, false, fmt.Errorf("Initialize failed: %v", err)
 	}
-	if pipeline.HibernationDistance != in.Dist {
-		return nil, false, fmt.Errorf("hibernation distance not taken from the facts")
+	if pipeline.HibernationDistance != in.Dist || pipeline.DumpPlan != (in.Opts&optDumpPlan != 0) ||
+		pipeline.PrintActions != (in.Opts&optPrintActions != 0) {
+		return nil, false, fmt.Errorf("hibernation distance / DumpPlan / PrintActions not taken from the facts")
 	}
 	var result map[hercules.LeafPipelineItem]interface{}
 	var err error
@@ -208,11 +245,24 @@ func runCase(in caseIn) (obs []Sx, nt bool, fatal error) {
 }
 
 func (in caseIn) fields() []Sx {
+	if in.Scale != "" {
+		return []Sx{T("shape", A(in.Scale)), T("size", I(in.Size)), T("hmode", I(in.HMode)), T("tmode", I(in.TMode)),
+			T("gseed", I(int(in.GSeed))), T("n", I(len(in.Commits))), T("dist", I(in.Dist)), T("nitems", I(in.NItems)), T("opts", I(in.Opts))}
+	}
 	cs := make([]Sx, len(in.Commits))
 	for i, c := range in.Commits {
 		cs[i] = L(I(c.ID), Ints(c.Parents))
 	}
-	return []Sx{T("dist", I(in.Dist)), T("nitems", I(in.NItems)), T("commits", cs...)}
+	return []Sx{T("dist", I(in.Dist)), T("nitems", I(in.NItems)), T("opts", I(in.Opts)), T("tmode", I(in.TMode)), T("commits", cs...)}
+}
+
+// scaleCase: a large history of planlib.ScaleGraph (the hashes are real, so their order is whatever they give; the
+// commits are handed to Run in the topological order of their numbers)
+func scaleCase(shape string, size, tmode int, gseed int64, dist, opts int) caseIn {
+	g := pl.ScaleGraph(shape, size, 0, 0, gseed)
+	in := caseIn{Kind: "scale-" + shape, Dist: dist, NItems: 1, Opts: opts, TMode: tmode, Scale: shape, Size: size, GSeed: gseed}
+	in.Commits = fromShape(g.Parents())
+	return in
 }
 
 func parseCase(s Sx) caseIn {
@@ -225,6 +275,17 @@ func parseCase(s Sx) caseIn {
 	}
 	if f, ok := s.Field("nitems"); ok {
 		in.NItems = f.Args()[0].Int()
+	}
+	if f, ok := s.Field("opts"); ok {
+		in.Opts = f.Args()[0].Int()
+	}
+	if f, ok := s.Field("tmode"); ok {
+		in.TMode = f.Args()[0].Int()
+	}
+	if shape, size, _, tmode, gseed, ok := pl.ParseScale(s); ok {
+		sc := scaleCase(shape, size, tmode, gseed, in.Dist, in.Opts)
+		sc.NItems = in.NItems
+		return sc
 	}
 	if f, ok := s.Field("commits"); ok {
 		for _, x := range f.Args() {
@@ -352,6 +413,8 @@ func main() {
 	log.SetOutput(io.Discard) // the planner warns about dropped disjoint commits through the standard logger
 	c := Setup()
 	defer c.Close()
+	// what DumpPlan / PrintActions print is discarded
+	c14.SetPlanPrinter(func(...interface{}) {})
 	if c.Replay != "" {
 		for _, s := range c.ReplayCases() {
 			emit(c, parseCase(s))
@@ -359,6 +422,22 @@ func main() {
 		return
 	}
 	r := c.Rng
+	opts := func() int {
+		o := 0
+		if r.Intn(3) == 0 {
+			o |= optDumpPlan
+		}
+		if r.Intn(3) == 0 {
+			o |= optPrintActions
+		}
+		return o
+	}
+	tmode := func() int {
+		if r.Intn(2) == 0 {
+			return 0
+		}
+		return 1 + r.Intn(pl.NumTimeModes-1)
+	}
 	// exhaustive small scopes
 	for n := 1; n <= 4; n++ {
 		exhaustive(c, n, []int{0, 1, 2})
@@ -375,10 +454,25 @@ func main() {
 		for arm := 0; arm <= 2; arm++ {
 			for tail := 0; tail <= 2; tail++ {
 				for d := 1; d <= 4; d++ {
-					emit(c, caseIn{Kind: "octoplain", Dist: d, NItems: 1, Commits: plainOctopus(k, arm, tail)})
+					emit(c, caseIn{Kind: "octoplain", Dist: d, NItems: 1, Opts: (k + arm + tail + d) % 4, Commits: plainOctopus(k, arm, tail)})
 				}
 			}
 		}
+	}
+	// octopus merges of 8..14 parents (forks of as many branches) with the plan dump / the action trace on or off,
+	// distances 0..4: the width at which printing, fixed-size buffers and small-array fast paths change behaviour
+	for k := 8; k <= 14; k++ {
+		for o := 0; o < 4; o++ {
+			d := (k + o) % 5
+			emit(c, caseIn{Kind: "octowide", Dist: d, NItems: 1, Opts: o, TMode: tmode(), Commits: plainOctopus(k, (k+o)%3, o%3)})
+		}
+	}
+	for i := c.Count(250, 8000); i > 0; i-- {
+		o := opts()
+		if r.Intn(2) == 0 {
+			o = 1 + r.Intn(3)
+		}
+		emit(c, caseIn{Kind: "wide", Dist: r.Intn(5), NItems: nitems(c), Opts: o, TMode: tmode(), Commits: fromShape(pl.WideGraph(r, 16))})
 	}
 	// wide octopus merges under hibernation: several merges per history, arms idle for different lengths,
 	// chains after the merge, 1..3 roots, sometimes a second head or a two-parent merge inside an arm
@@ -401,7 +495,10 @@ func main() {
 				d = 4
 			}
 		}
-		emit(c, caseIn{Kind: "octo", Dist: d, NItems: nitems(c), Commits: fromShape(synth.GenOctopusShape(r, oo))})
+		if r.Intn(8) == 0 {
+			oo.MaxPar = 8 + r.Intn(5)
+		}
+		emit(c, caseIn{Kind: "octo", Dist: d, NItems: nitems(c), Opts: opts(), TMode: tmode(), Commits: fromShape(synth.GenOctopusShape(r, oo))})
 	}
 	// linear histories
 	for i := c.Count(100, 2000); i > 0; i-- {
@@ -413,15 +510,32 @@ func main() {
 				cs[j].Parents = []int{j - 1}
 			}
 		}
-		emit(c, caseIn{Kind: "lin", Dist: r.Intn(5), NItems: nitems(c), Commits: cs})
+		emit(c, caseIn{Kind: "lin", Dist: r.Intn(5), NItems: nitems(c), Opts: opts(), TMode: tmode(), Commits: cs})
 	}
 	// random DAGs with 2-4 parent merges and several roots
 	for i := c.Count(1500, 40000); i > 0; i-- {
-		emit(c, caseIn{Kind: "dag", Dist: r.Intn(5), NItems: nitems(c), Commits: randomDag(c, 16)})
+		emit(c, caseIn{Kind: "dag", Dist: r.Intn(5), NItems: nitems(c), Opts: opts(), TMode: tmode(), Commits: randomDag(c, 16)})
 	}
 	// the conflict-free histories of harness/synth (graph shape only)
 	for i := c.Count(800, 20000); i > 0; i-- {
 		h := synth.GenHist(r, synth.GenOpts{MaxCommits: 8 + r.Intn(16), SingleHead: r.Intn(2) == 0})
-		emit(c, caseIn{Kind: "hist", Dist: r.Intn(5), NItems: nitems(c), Commits: fromShape(h.Parents)})
+		emit(c, caseIn{Kind: "hist", Dist: r.Intn(5), NItems: nitems(c), Opts: opts(), TMode: tmode(), Commits: fromShape(h.Parents)})
+	}
+	// large histories: 10^3 branches in every shape (quick), 10^4 and more than 2^16 instances (thorough)
+	if c.Tier != "search" {
+		mk := func(shape string, size int) {
+			emit(c, scaleCase(shape, size, tmode(), int64(r.Intn(1<<30)), r.Intn(4), r.Intn(4)))
+		}
+		for _, sh := range pl.ScaleShapes {
+			mk(sh, 1000+r.Intn(25))
+		}
+		if c.Thorough() {
+			for _, sh := range []string{"comb", "diamonds", "roots", "ladder", "starmerge", "star"} {
+				mk(sh, 10000+r.Intn(300))
+			}
+			mk("bush", 3000)
+			mk("star", 65536+1+r.Intn(100))
+			mk("diamonds", 65536+1+r.Intn(1000))
+		}
 	}
 }
